@@ -28,7 +28,7 @@ ASSUMPTIONS = ["an exception raised at a call boundary stands for any failure at
                "temp files are not output files: they may exist under the run's private TMPDIR"]
 REAL_VS_STUB = {"real": ["gen_params, gen_seq, gen_coords end to end, vermouth DeferredFileWriter, real file system"],
                 "stub": ["tqdm disabled", "sys.argv pinned", "sys.settrace crash injector"]}
-PROBES = ["publishing_move_fails_once", "output_path_is_symlink", "publish_across_filesystems", "relative_output_path", "crash_between_open_and_write", "existing_file", "existing_backups", "later_success_other_path",
+PROBES = ["backups_without_output_file", "publishing_move_fails_once", "output_path_is_symlink", "publish_across_filesystems", "relative_output_path", "crash_between_open_and_write", "existing_file", "existing_backups", "later_success_other_path",
           "natural_failure", "prog_gen_params", "prog_gen_seq", "prog_gen_coords", "success_backup_checked"]
 EXHAUSTIVE = {}
 
@@ -93,7 +93,8 @@ def gen_job(verif_seed, tier, index):
     g = st.gen
     op = _base_op(g, prog, st, verif_seed, index)
     pre = []
-    state = g.choice(["absent", "file", "file+backups", "symlink"] if prog != "gen_seq" else ["absent", "file", "file+backups"])
+    state = g.choice(["absent", "file", "file+backups", "symlink", "backups-only"] if prog != "gen_seq"
+                     else ["absent", "file", "file+backups"])
     base = op["out"].split("/")[-1]
     links = []
     if state == "symlink":
@@ -101,10 +102,11 @@ def gen_job(verif_seed, tier, index):
         # (GROMACS style), the file it points to must stay untouched
         pre.append(["res/run1.dat", f"previous content {g.getrandbits(40)}\n"])
         links.append([op["out"], "run1.dat"])
-    elif state != "absent":
+    elif state not in ("absent", "backups-only"):
         # a quarter of the existing files are empty (0 bytes) - they are files all the same
         pre.append([op["out"], f"previous content {g.getrandbits(40)}\n" if g.random() < 0.75 else ""])
-    if state == "file+backups":
+    if state in ("file+backups", "backups-only"):
+        # (backups-only: earlier runs left #name.N# files behind, the output itself was moved away since)
         for k in range(1, g.randint(2, 3)):
             pre.append([f"res/#{base}.{k}#", f"backup {k} {g.getrandbits(40)}\n"])
     op["pre_files"] = pre
@@ -224,10 +226,12 @@ def run_job(job):
         probes["output_path_is_symlink"] = 1
     if op.get("relpath"):
         probes["relative_output_path"] = 1
-    if job["state"] != "absent":
+    if job["state"] not in ("absent", "backups-only"):
         probes["existing_file"] = 1
-    if job["state"] == "file+backups":
+    if job["state"] in ("file+backups", "backups-only"):
         probes["existing_backups"] = 1
+    if job["state"] == "backups-only":
+        probes["backups_without_output_file"] = 1
     # ---- calibration: fault-free traced run
     cal = zygotes.run_history(hs, {"ops": [dict(op, count_calls=True)], "roundtrip": False}, timeout=300)["ops"][0]
     if cal["status"] != "ok":
